@@ -285,10 +285,13 @@ func c15Lit(t gen.T, r *rt.Rand) *gen.Node {
 	switch t {
 	case gen.TS:
 		// also literals with bytes a printer might want to escape (the language has no escapes)
-		return gen.Str([]string{"a", "b", "k1", "", "x y", "a\\b", "^k\\d+$", "t\tab", "caf\xc3\xa9", "\xff\xfe", "say \"hi\"", "100%", "\\"}[r.Intn(13)])
+		return gen.Str([]string{"a", "b", "k1", "", "x y", "a\\b", "^k\\d+$", "t\tab", "caf\xc3\xa9", "\xff\xfe", "say \"hi\"", "100%", "\\", "k1!", "a<", "b>", "c^", "d~", "=", "!"}[r.Intn(20)])
 	case gen.TN:
 		if r.Chance(1, 4) {
 			return gen.Float([]string{"0.5", "1.5", "2.0"}[r.Intn(3)])
+		}
+		if r.Chance(1, 8) {
+			return gen.Int([]int64{9007199254740993, 9223372036854775807, 4611686018427387905, 9007199254740992}[r.Intn(4)])
 		}
 		return gen.Int(int64(r.Range(0, 9)))
 	}
@@ -366,6 +369,7 @@ func (c15) Assumptions() []string {
 
 func (c15) Gates(tier string, m map[string]int64) []rt.Gate {
 	return []rt.Gate{
+		rt.GateMin("operators written directly after a closing quote", m, "operator_directly_after_a_closing_quote", 200),
 		rt.GateMin("BETWEEN with arithmetic trees as bounds", m, "between_with_arithmetic_bounds", 200),
 		rt.GateMin("filters naming a backquoted select field (printed form re-parsed under the same field list)", m, "named_field_filters", 200),
 		rt.GateMin("flat sequences compared", m, "flat_compared", 1000),
@@ -406,6 +410,8 @@ func (k c15) Run(c *rt.Ctx) {
 			k.betweenBounds(c)
 		case 1:
 			k.namedFieldFixpoint(c)
+		case 2:
+			k.tightAfterLiteral(c)
 		default:
 			k.randomTree(c)
 		}
@@ -441,6 +447,35 @@ func (k c15) betweenBounds(c *rt.Ctx) {
 	}
 	style := gen.Style{Paren: 1, R: r.Fork(), Case: r.Chance(1, 2), Tight: r.Chance(1, 4)}
 	c.Rec.Inc("between_with_arithmetic_bounds")
+	c.Rec.Inc("tree_compared")
+	k.compare(c, tree, style.Print(tree), "tree")
+}
+
+// tightAfterLiteral: an operator written directly after a closing quote, the literal ending
+// in a character that could start a two-character operator (the quote separates them).
+func (k c15) tightAfterLiteral(c *rt.Ctx) {
+	r := c.R
+	lit := []string{"k1!", "a<", "b>", "c^", "d~", "!", "<", "x=", "="}[r.Intn(9)]
+	var other *gen.Node
+	switch r.Intn(3) {
+	case 0:
+		other = gen.Key()
+	case 1:
+		other = gen.Bin("+", gen.Key(), gen.Str(lit))
+	default:
+		other = gen.Call("upper", gen.Value())
+	}
+	op := []string{"=", "=", "!=", "^=", "~=", ">=", "<=", ">", "<"}[r.Intn(9)]
+	var left *gen.Node = gen.Str(lit)
+	if r.Bool() {
+		left = gen.Bin("+", gen.Key(), gen.Str(lit))
+	}
+	tree := gen.Bin(op, left, other)
+	if r.Chance(1, 3) {
+		tree = gen.And(tree, gen.Bin("=", gen.Str(lit), gen.Value()))
+	}
+	style := gen.Style{Paren: 1, R: r.Fork(), Tight: true}
+	c.Rec.Inc("operator_directly_after_a_closing_quote")
 	c.Rec.Inc("tree_compared")
 	k.compare(c, tree, style.Print(tree), "tree")
 }
